@@ -9,8 +9,13 @@
      - startReadingResponses: an error of readMsg (transport error code, undecryptable or
        truncated packet, msg_id with wrong low bits, unregistered constructor, rpc_result for
        an id that is not in the table, bad_msg_notification) goes to warnError and the loop
-       reads the next frame.  processResponse returns the error through the container
-       recursion, so the rest of the frame is abandoned: [fail2] sets the pc to RRead.
+       reads the next frame.
+     - processResponse = handleResponse + acknowledgement: a message whose body cannot be handled
+       is acknowledged like any other if its seq_no is odd, and does not cut off the rest of its
+       container: [fail2] remembers that there is an error to return ([perr]), keeps the
+       message's tail on the stack and goes on; the (first) error reaches warnError when the
+       loop is back at its read ([flush], applied after every step of the control part
+       [step2i]; [step2] = flush after step2i).
      - warnError is a non-blocking send: nil channel -> nothing; room in the buffer -> queued;
        otherwise dropped.  It never changes the control flow.
      - bad_server_salt(bad_msg_id, new_salt): salt := new_salt; SaveSession; then the retry
@@ -47,7 +52,8 @@ Record state2 := {
   dropped : nat;                       (* ghost: warnings dropped (nil channel is not counted) *)
   handler : bool;
   handled : nat;                       (* ghost: objects taken by the custom handler *)
-  failed : nat;                        (* ghost: frames whose reading / processing ended in an error *)
+  failed : nat;                        (* ghost: messages whose reading / processing ended in an error *)
+  perr : bool;                         (* processResponse of the frame being worked on has an error to return *)
   gen : nat;                           (* connection generation *)
   keyed : bool;                        (* m.encrypted *)
   plain_out : nat;                     (* ghost: unencrypted frames written *)
@@ -56,7 +62,7 @@ Record state2 := {
 }.
 
 Definition init2 (c : config) : state2 := {|
-  base := init; wch := cf_warn c; warned := 0; dropped := 0; handler := cf_handler c; handled := 0; failed := 0;
+  base := init; wch := cf_warn c; warned := 0; dropped := 0; handler := cf_handler c; handled := 0; failed := 0; perr := false;
   gen := 1; keyed := cf_keyed c; plain_out := 0; keyex := 0; adopt := [] |}.
 
 Inductive label2 :=
@@ -68,14 +74,14 @@ Inductive label2 :=
 
 Definition wb (b : state) (s : state2) : state2 :=
   {| base := b; wch := wch s; warned := warned s; dropped := dropped s; handler := handler s;
-     handled := handled s; failed := failed s; gen := gen s; keyed := keyed s; plain_out := plain_out s; keyex := keyex s;
+     handled := handled s; failed := failed s; perr := perr s; gen := gen s; keyed := keyed s; plain_out := plain_out s; keyex := keyex s;
      adopt := adopt s |}.
 
 Definition upd_base (f : state -> state) (s : state2) : state2 := wb (f (base s)) s.
 
 Definition set_wch (w : wchan) (dw dd : nat) (s : state2) : state2 :=
   {| base := base s; wch := w; warned := warned s + dw; dropped := dropped s + dd; handler := handler s;
-     handled := handled s; failed := failed s; gen := gen s; keyed := keyed s; plain_out := plain_out s; keyex := keyex s;
+     handled := handled s; failed := failed s; perr := perr s; gen := gen s; keyed := keyed s; plain_out := plain_out s; keyex := keyex s;
      adopt := adopt s |}.
 
 (* warnError, as repaired: select { case m.Warnings <- err: default: } *)
@@ -89,7 +95,7 @@ Definition warn2 (s : state2) : state2 :=
 Definition handle2 (s : state2) : state2 :=
   if handler s then
     {| base := base s; wch := wch s; warned := warned s; dropped := dropped s; handler := handler s;
-       handled := S (handled s); failed := failed s; gen := gen s; keyed := keyed s; plain_out := plain_out s; keyex := keyex s;
+       handled := S (handled s); failed := failed s; perr := perr s; gen := gen s; keyed := keyed s; plain_out := plain_out s; keyex := keyex s;
        adopt := adopt s |}
   else warn2 s.
 
@@ -98,16 +104,29 @@ Definition wire2 (b : state) : list wframe := wire_out (elog b).
 (* m.serverSalt = x; m.SaveSession() *)
 Definition adopt2 (x : Z) (c : cause) (s : state2) : state2 :=
   {| base := set_salt x (base s); wch := wch s; warned := warned s; dropped := dropped s; handler := handler s;
-     handled := handled s; failed := failed s; gen := gen s; keyed := keyed s; plain_out := plain_out s; keyex := keyex s;
+     handled := handled s; failed := failed s; perr := perr s; gen := gen s; keyed := keyed s; plain_out := plain_out s; keyex := keyex s;
      adopt := (x, length (wire2 (base s)), c) :: adopt s |}.
 
 (* an error came back from readMsg: reported, the loop reads the next frame *)
 Definition bump_failed (s : state2) : state2 :=
   {| base := base s; wch := wch s; warned := warned s; dropped := dropped s; handler := handler s;
-     handled := handled s; failed := S (failed s); gen := gen s; keyed := keyed s; plain_out := plain_out s;
+     handled := handled s; failed := S (failed s); perr := perr s; gen := gen s; keyed := keyed s; plain_out := plain_out s;
      keyex := keyex s; adopt := adopt s |}.
 
-Definition fail2 (s : state2) : state2 := warn2 (bump_failed (upd_base (set_rx RRead) s)).
+Definition set_perr (e : bool) (s : state2) : state2 :=
+  {| base := base s; wch := wch s; warned := warned s; dropped := dropped s; handler := handler s;
+     handled := handled s; failed := failed s; perr := e; gen := gen s; keyed := keyed s; plain_out := plain_out s;
+     keyex := keyex s; adopt := adopt s |}.
+
+(* handleResponse returned an error for the message on top of the stack [tl]: the error is remembered (the
+   first one is what readMsg finally returns), the message is acknowledged like any other (its KTail is the
+   head of tl) and the loop goes on with what is left of the enclosing containers *)
+Definition fail2 (tl : list kont) (s : state2) : state2 :=
+  set_perr true (bump_failed (upd_base (set_rx (settle tl)) s)).
+
+(* back at the read with an error to return: startReadingResponses hands it to warnError *)
+Definition flush (s : state2) : state2 :=
+  if perr s then match rx (base s) with RRead => warn2 (set_perr false s) | _ => s end else s.
 
 (* ---- the receive loop --------------------------------------------------------------------- *)
 
@@ -119,18 +138,18 @@ Definition dispatch2 (f : frame) (ks : list kont) (s : state2) : state2 :=
   let b0 := base s in
   let s1 := upd_base (log (ERecv sid seq)) s in
   let tl := KTail sid seq :: ks in
-  if negb (decodes (hinted_for b b0) b) then fail2 s1
+  if negb (decodes (hinted_for b b0) b) then fail2 tl s1
   else match strip b with
   | BContainer items => upd_base (set_rx (settle (map KItem items ++ tl))) s1
   | BResult req _ k p =>
       match lookup req (table b0) with
       | Some ch => upd_base (fun y => set_rx (RDeliver req ch (VRes k p) tl) (log (EDisp req (VRes k p)) y)) s1
-      | None => fail2 s1
+      | None => fail2 tl s1
       end
   | BError req _ mg p =>
       match lookup req (table b0) with
       | Some ch => upd_base (fun y => set_rx (RDeliver req ch (VErr mg p) tl) (log (EDisp req (VErr mg p)) y)) s1
-      | None => fail2 s1
+      | None => fail2 tl s1
       end
   | BNewSession x => upd_base (set_rx (settle tl)) (adopt2 x CNewSession s1)
   | BBadSalt i x =>
@@ -138,10 +157,10 @@ Definition dispatch2 (f : frame) (ks : list kont) (s : state2) : state2 :=
       | Some _ => upd_base (fun y => set_rx (RNotify [i] tl) (log (EDisp i VRetry) y)) (adopt2 x (CBadSalt i true) s1)
       | None => upd_base (set_rx (settle tl)) (adopt2 x (CBadSalt i false) s1)
       end
-  | BBadMsg _ => fail2 s1
+  | BBadMsg _ => fail2 tl s1
   | BPong | BAck => upd_base (set_rx (settle tl)) s1
   | BUpdate => upd_base (set_rx (settle tl)) (handle2 s1)
-  | BGzip _ | BGarbage => fail2 s1
+  | BGzip _ | BGarbage => fail2 tl s1
   end.
 
 (* `v <- &errorSessionConfigsChanged{}` + Delete: rendezvous with the waiter registered under i,
@@ -176,13 +195,13 @@ Definition reopen (b : state) : state :=
 
 Definition reconnect2 (s : state2) : state2 :=
   {| base := reopen (base s); wch := wch s; warned := warned s; dropped := dropped s; handler := handler s;
-     handled := handled s; failed := failed s; gen := S (gen s); keyed := keyed s; plain_out := plain_out s; keyex := keyex s;
+     handled := handled s; failed := failed s; perr := perr s; gen := S (gen s); keyed := keyed s; plain_out := plain_out s; keyex := keyex s;
      adopt := adopt s |}.
 
 (* makeAuthKey: req_pq, req_DH_params, set_client_DH_params in the clear; salt from the nonces; SaveSession *)
 Definition keyex2 (x : Z) (s : state2) : state2 :=
   {| base := set_salt x (base s); wch := wch s; warned := warned s; dropped := dropped s; handler := handler s;
-     handled := handled s; failed := failed s; gen := gen s; keyed := true; plain_out := plain_out s + 3; keyex := S (keyex s);
+     handled := handled s; failed := failed s; perr := perr s; gen := gen s; keyed := true; plain_out := plain_out s + 3; keyex := S (keyex s);
      adopt := (x, length (wire2 (base s)), CKeyEx) :: adopt s |}.
 
 Definition lift (s : state2) (l : label) : option state2 :=
@@ -202,7 +221,7 @@ Definition step_rx2 (clk : Z) (s : state2) : option state2 :=
   | _ => lift s (LStep ARx clk)
   end.
 
-Definition step2 (s : state2) (l : label2) : option state2 :=
+Definition step2i (s : state2) (l : label2) : option state2 :=
   match l with
   | LDrain =>
       match wch s with
@@ -218,6 +237,8 @@ Definition step2 (s : state2) (l : label2) : option state2 :=
       | _ => lift s l1
       end
   end.
+
+Definition step2 (s : state2) (l : label2) : option state2 := option_map flush (step2i s l).
 
 Definition run2 (s : state2) (ls : list label2) : option state2 :=
   fold_left (fun o l => match o with Some x => step2 x l | None => None end) ls (Some s).
